@@ -77,6 +77,22 @@ func (c *Checker) keyOf(in ssa.Instruction, kind string) string {
 	return fmt.Sprintf("%s/%s", load.FuncName(f), kind)
 }
 
+func (c *Checker) keyOfCall(call ssa.CallInstruction, name string) string {
+	f := call.Parent()
+	n := 0
+	for _, b := range f.Blocks {
+		for _, i := range b.Instrs {
+			if ci, ok := i.(ssa.CallInstruction); ok && ssau.CalleeName(ci.Common()) == ssau.CalleeName(call.Common()) {
+				n++
+				if ci == call {
+					return fmt.Sprintf("%s/%s#%d", load.FuncName(f), name, n)
+				}
+			}
+		}
+	}
+	return load.FuncName(f) + "/" + name
+}
+
 func instrKind(i ssa.Instruction) string {
 	switch x := i.(type) {
 	case *ssa.IndexAddr, *ssa.Index:
@@ -242,6 +258,7 @@ func (c *Checker) BackEdge(st *pathint.State, from, header *ssa.BasicBlock) {
 		s.what = kind
 		return
 	}
+	c.seekToDeclaredEnd(st, header)
 	its := st.LoopIters(header)
 	adv := false
 	if st.MarkedSince(header, "consume") {
@@ -382,9 +399,23 @@ func structuralLoop(h *ssa.BasicBlock) string {
 func (c *Checker) Call(st *pathint.State, call ssa.CallInstruction, callee string, args []pathint.Val) {
 	switch callee {
 	case "io.ReadFull":
-		if len(args) == 2 && args[1].K == pathint.KSlice && st.Prove(args[1].S.Len.AddC(-1)) {
-			st.Mark("consume")
+		st.Mark("may:read")
+		if len(args) == 2 && args[1].K == pathint.KSlice {
+			key := c.keyOfCall(call, "ReadFull")
+			if ok, lifted := st.Require("P5", key, call.Pos(), args[1].S.Len.AddC(-1), "the buffer handed to io.ReadFull is not empty (the read consumes input)"); ok || lifted {
+				st.Mark("consume")
+			}
 		}
+	case "iface:(io.Reader).Read":
+		st.Mark("may:read")
+	case "(*bufio.Reader).Peek":
+		st.Mark("may:peek") // looks at the input without consuming it
+	case "iface:(io.Seeker).Seek", "iface:(io.ReadSeeker).Seek":
+		st.Mark("may:seek")
+		st.Mark("seekcall") // a successful repositioning undoes what was consumed so far (see Return)
+	case "(*bufio.Reader).Discard":
+		st.Mark("may:read")
+		st.Mark("consume")
 	}
 }
 
@@ -409,8 +440,67 @@ func (c *Checker) Publish(st *pathint.State, in *ssa.Store, target *pathint.Obj,
 	}
 }
 
-// Return is unused here.
-func (c *Checker) Return(st *pathint.State, ret *ssa.Return, results []pathint.Val) {}
+// ProgressFuncs are the functions whose failing returns must have consumed input (P5).
+var ProgressFuncs = map[string]bool{"(*Demuxer).NextPacket": true}
+
+// Return implements P5 — progress on error: a call that fails for a reason that depends on the input
+// (it looked at the reader) must have consumed some of it, otherwise calling again fails the same way for
+// ever and the end of the stream is never reached. Returns of the end-of-stream sentinel are exempt.
+func (c *Checker) Return(st *pathint.State, ret *ssa.Return, results []pathint.Val) {
+	f := ret.Parent()
+	ei := ssau.ErrorResultIndex(f.Signature)
+	if st.HasMark("seekcall") && ei >= 0 && ei < len(results) && results[ei].K == pathint.KErr {
+		// the function that repositions the reader: when it reports success the consumption is undone
+		nilErr := results[ei].ErrNil == pathint.Yes
+		if results[ei].ErrNil == pathint.Maybe {
+			if v, ok := st.Pred("nil:" + results[ei].Sym); ok && v {
+				nilErr = true
+			}
+		}
+		if nilErr {
+			st.Unmark("consume")
+			st.Mark("clear:consume")
+		}
+		st.Unmark("seekcall")
+	}
+	if !ProgressFuncs[load.FuncName(f)] {
+		return
+	}
+	if ei < 0 || ei >= len(results) {
+		return
+	}
+	ev := results[ei]
+	if ev.K != pathint.KErr || ev.ErrNil == pathint.Yes {
+		return
+	}
+	if ev.ErrNil == pathint.Maybe && !st.HasMark("may:read") && !st.HasMark("may:peek") {
+		return
+	}
+	if ev.Sym == "@ErrNoMorePackets" {
+		return
+	}
+	if strings.Contains(ev.Sym, "ioerr:") {
+		return // the reader itself failed: not an input-dependent rejection
+	}
+	var looked []string
+	for _, m := range st.Marks() {
+		if strings.HasPrefix(m, "may:") {
+			looked = append(looked, m[4:])
+		}
+	}
+	if len(looked) == 0 {
+		return // the failure does not depend on the input (e.g. context cancelled)
+	}
+	key := fmt.Sprintf("%s/progress-on-error/after[%s]", load.FuncName(f), strings.Join(looked, ","))
+	s := c.siteByKey("P5", key, c.P.Pos(ret.Pos()), "a failing call has consumed input")
+	s.paths++
+	if !st.HasMark("consume") {
+		s.failed++
+		if s.example == "" {
+			s.example = "an error that depends on the input is returned although nothing was consumed from the reader (after " + strings.Join(looked, ", ") + "): every later call fails the same way and ErrNoMorePackets is never reached [path: " + st.PathDesc() + "]"
+		}
+	}
+}
 
 // Deref implements the definite-nil part of P3.
 func (c *Checker) Deref(st *pathint.State, in ssa.Instruction, ptr pathint.Val) {
@@ -544,3 +634,60 @@ func (c *Checker) Run(r *report.Report, roots []string) {
 
 var _ = types.Typ
 var _ = strings.TrimSpace
+
+// DeclaredEndLoops — P6: loops whose every iteration must account for exactly the declared length of the
+// element it parsed: function -> (struct type of the element allocated in the loop, its length field,
+// bytes of the element header).
+var DeclaredEndLoops = map[string]struct {
+	Type, Field string
+	Header      int64
+}{
+	"parseDescriptors": {"Descriptor", "Length", 2},
+}
+
+func (c *Checker) seekToDeclaredEnd(st *pathint.State, header *ssa.BasicBlock) {
+	f := header.Parent()
+	spec, ok := DeclaredEndLoops[load.FuncName(f)]
+	if !ok {
+		return
+	}
+	// the element object allocated in the loop body
+	var alloc *ssa.Alloc
+	for _, b := range f.Blocks {
+		for _, in := range b.Instrs {
+			if a, ok := in.(*ssa.Alloc); ok && header.Dominates(b) && ssau.IsNamed(a.Type().(*types.Pointer).Elem(), load.RootPath, spec.Type) {
+				alloc = a
+			}
+		}
+	}
+	key := fmt.Sprintf("%s/loop@%s/accounts-for-declared-length", load.FuncName(f), loopName(header))
+	s := c.siteByKey("P6", key, c.P.Pos(loopPos(header)), "every iteration ends exactly at the declared end of the element (a malformed body never shifts what follows)")
+	s.paths++
+	if alloc == nil {
+		s.failed++
+		s.example = "no " + spec.Type + " is allocated in the loop: the element whose declared length should be honoured was not found"
+		return
+	}
+	lv, ok := st.Mem("%" + f.Name() + ":" + alloc.Name() + "." + spec.Field)
+	if !ok || lv.K != pathint.KInt {
+		s.failed++
+		if s.example == "" {
+			s.example = "the declared length of the element is not known at the end of the iteration"
+		}
+		return
+	}
+	for _, it := range st.LoopIters(header) {
+		h, _ := st.LoopEntryCursor(header, it)
+		cv, ok := st.Mem(it + ".#cur")
+		if !ok || cv.K != pathint.KInt {
+			continue
+		}
+		d := cv.F.Sub(h).AddC(-spec.Header).Sub(lv.F)
+		if !(st.Prove(d) && st.Prove(d.Scale(-1))) {
+			s.failed++
+			if s.example == "" {
+				s.example = fmt.Sprintf("at the end of an iteration the cursor is at start + %s, not at start + %d + declared length [path: %s]", cv.F.Sub(h), spec.Header, st.PathDesc())
+			}
+		}
+	}
+}
